@@ -130,6 +130,13 @@ def build(rng, tier):
             a = r2.choice(POOLS)
             ops = [f"eng new {inst} {pid}" + (f" par {a}" if macro == "ascent_par" else "")] + engcheck.load_ops(inst, inp) + [f"eng run {inst}", f"eng dump {inst}", f"eng run {inst}", f"eng dump {inst}"]
             cases.append(engcheck.Case(pid, inst, ops, {"inp": inp, "union": inp, "kind": "nested-instances", "abc": (a, a, a)}))
+    # (1h) many workers deriving the SAME few tuples at the same moment: `r(min(x, 15)) <-- s(x)` over 20000 facts, counted by a later stratum - for the fresh-process scenarios
+    # below (whatever a process remembers from its FIRST pool must not weaken the "insert if absent" of a later, larger pool)
+    dup = {"rels": [{"arity": 1}, {"arity": 1}, {"arity": 1}],
+           "rules": [{"heads": [(1, [("min", ("var", 0), 15)])], "body": [("cl", 0, [("v", 0)], [])]},
+                     {"heads": [(2, [("var", 21)])], "body": [("agg", [21], "count", [], 1, ["_"])]}]}
+    progs["ydup"] = dup; PROGS["ydup"] = dup
+    mods.append(("ydup", eng.rs_module("ydup", dup, macro="ascent_par")))
     # (2) several instances, of the same and of different generated types, serial and parallel, running at the same time
     pids = list(progs)
     for g in range(6 if tier == "quick" else 40):
@@ -229,13 +236,17 @@ def fresh_process_step(r, d, progs, bins, tier):
     m = 0
     lat_pids = ["ysp"] + sorted(pid for pid in PROGS if pid.startswith("ylp"))
     for first in (1, 2, 3):
-        for k, pid in enumerate(lat_pids + ["yjoin"]):
+        for k, pid in enumerate(lat_pids + ["yjoin", "ydup"]):
             p = PROGS[pid]
             lines = [f"eng prog {pid} {eng.sx_prog(p)}", f"eng new warm {pid} par {first}"]
+            # ... and RUN there on a small input first (whatever is decided lazily at the first insertion / merge of the process is decided in the small pool)
+            winp = {0: [(x,) for x in range(40)]} if pid == "ydup" else ({0: [(1, 2), (2, 3)]} if pid == "yjoin" else (gen.sp_input(rng.fork(f"w{first}{pid}")) if pid == "ysp" else gen.gen_lat_input(rng.fork(f"w{first}{pid}"), p)))
+            lines += engcheck.load_ops("warm", winp) + [f"eng runin warm {first}"]
             exp = []
-            for j, t in enumerate((4, 16, 1, 3) if tier == "quick" else (1, 2, 3, 4, 5, 8, 16)):
+            for j, t in enumerate(((8, 16, 8, 16, 4, 16) if pid == "ydup" else (4, 16, 1, 3)) if tier == "quick" else ((8, 16) * 6 if pid == "ydup" else (1, 2, 3, 4, 5, 8, 16))):
                 g = rng.fork(f"{first}_{pid}_{j}")
-                inp = gen.sp_input(g) if pid == "ysp" else ({0: [(10 * c + q, 10 * c + q + 1) for c in range(40) for q in range(4)]} if pid == "yjoin" else gen.gen_lat_input(g, p))
+                inp = gen.sp_input(g) if pid == "ysp" else ({0: [(10 * c + q, 10 * c + q + 1) for c in range(40) for q in range(4)]} if pid == "yjoin" else
+                                                             ({0: [(x,) for x in range(20000)]} if pid == "ydup" else gen.gen_lat_input(g, p)))
                 inst = f"f{j}"
                 lines += [f"eng new {inst} {pid} par {t}"] + engcheck.load_ops(inst, inp) + [f"eng runin {inst} {t}", f"eng dump {inst}"]
                 exp.append((len(lines) - 1, inp, t))
@@ -244,6 +255,10 @@ def fresh_process_step(r, d, progs, bins, tier):
             why = None
             for pos, inp, t in exp:
                 w = engcheck.check_sets(p, str(out[pos]), engcheck.spec_sets(p, inp))
+                if not w and pid == "ydup":
+                    _, mult = engcheck.dump_sets(str(out[pos]))
+                    twice = [t2 for t2, m2 in mult.get(1, {}).items() if m2 != 1]
+                    if twice: w = f"relation r1 holds the row {twice[0]} {mult[1][twice[0]]} times ({len(twice)} such rows): a derived tuple is inserted once"
                 if w: why = f"{pid} in a pool of {t} threads, in a process whose first parallel program value was constructed in a pool of {first}: {w}"; break
             d.evals += 1
             if why: d.failing.append({"input": "\n".join(lines), "impl": "\n".join(str(x) for x in out), "model": None, "why": why})
